@@ -78,6 +78,9 @@ pub broadcast proof fn axiom_to_string_method(t: &http::Method, s: String)
 // ---- bytes of strings, byte vectors ----
 pub assume_specification [std::string::String::as_bytes] (s: &std::string::String) -> (r: &[u8])
     ensures r@ == utf8(s@);
+pub uninterp spec fn clone_is_copy<T>() -> bool;                                // T::clone returns an equal value
+#[verifier::external_body]
+pub broadcast proof fn axiom_clone_is_copy_u8() ensures #[trigger] clone_is_copy::<u8>() {}
 pub assume_specification<T> [<[T]>::to_vec] (s: &[T]) -> (r: std::vec::Vec<T>)
     where T: std::clone::Clone,
-    ensures vstd::std_specs::clone::clone_is_copy::<T>() ==> r@ == s@;
+    ensures clone_is_copy::<T>() ==> r@ == s@;
